@@ -11,7 +11,11 @@ package props
 import (
 	"encoding/hex"
 	"fmt"
+	"math"
+	"math/big"
 	"math/rand"
+
+	xblake "golang.org/x/crypto/blake2b"
 
 	"go.sia.tech/core/consensus"
 	"go.sia.tech/core/types"
@@ -193,6 +197,7 @@ func runC07P(c *fw.Ctx) {
 		}
 		one(file, idx, size <= 8192)
 	}
+	c07pLeafIndex(c, model)
 	c07pV1(c, model)
 	c07pV2(c, model) // the v2 clause through the real ValidateBlock on a simulated chain
 	c16ProverPath(c, model) // the library prover path for multi-sector files (shared with C16)
@@ -358,5 +363,58 @@ func c07pV1(c *fw.Ctx, model func(op, out string)) {
 		g, _ := verdict(era, types.FileContractID{1}, types.BlockID{2}, 0, z, leaf, nil)
 		res.Count("sp-v1:empty-file:" + era.name + ":verdict-" + g)
 		model(fmt.Sprintf("sp-verify1 %d 0 0 %s - %s", era.code, hex.EncodeToString(leaf[:]), c16Hex(z)), g)
+	}
+}
+
+// c07pLeafIndex: State.StorageProofLeafIndex against the statement (the 256-bit big-endian value of
+// blake2b(windowID ‖ fcid) modulo the number of 64-byte leaves, 0 for an empty file, never a panic)
+// and against the Lean model (op sp-leafindex), on every boundary file size and random ids.
+func c07pLeafIndex(c *fw.Ctx, model func(op, out string)) {
+	res := c.Res
+	sizes := []uint64{0, 1, 2, 63, 64, 65, 127, 128, 129, 4096, 1<<32 - 1, 1 << 32, 1<<32 + 1, 1<<63 - 1, 1 << 63, 1<<63 + 1}
+	for d := uint64(0); d <= 130; d++ { // 2^64-131 … 2^64-1: around every rounding boundary at the top
+		sizes = append(sizes, math.MaxUint64-d)
+	}
+	for i := 0; i < c.Budget(200, 5000); i++ {
+		sizes = append(sizes, c.Rng.Uint64()>>uint(c.Rng.Intn(64)))
+	}
+	st := consensus.State{Network: &consensus.Network{}}
+	two64 := new(big.Int).Lsh(big.NewInt(1), 64)
+	for _, fs := range sizes {
+		for k := 0; k < c.Budget(3, 10); k++ {
+			var wid types.BlockID
+			var fcid types.FileContractID
+			c.Rng.Read(wid[:])
+			c.Rng.Read(fcid[:])
+			if k == 0 {
+				wid, fcid = types.BlockID{}, types.FileContractID{}
+			}
+			// statement: numLeaves = ceil(fs/64) over the integers; index = seed mod numLeaves
+			n := new(big.Int).SetUint64(fs)
+			n.Add(n, big.NewInt(63)).Div(n, big.NewInt(64))
+			want := "ok 0"
+			if n.Sign() > 0 {
+				seed := xblake.Sum256(append(append([]byte{}, wid[:]...), fcid[:]...))
+				r := new(big.Int).Mod(new(big.Int).SetBytes(seed[:]), n)
+				if r.Cmp(two64) >= 0 {
+					want = "?"
+				} else {
+					want = "ok " + r.String()
+				}
+			}
+			got := ""
+			if p, _ := fw.Recover(func() { got = fmt.Sprintf("ok %d", st.StorageProofLeafIndex(fs, wid, fcid)) }); p {
+				got = "panic"
+			}
+			res.Eval(fmt.Sprintf("leafindex %d %x %x", fs, wid[:4], fcid[:4]), fs > 64)
+			res.Count("sp-leafindex:cases")
+			if got != want {
+				res.Violate(fw.Violation{Key: "c07p-leaf-index:" + map[bool]string{true: "panic", false: "wrong"}[got == "panic"],
+					What:     fmt.Sprintf("StorageProofLeafIndex(%d, …) = %s, the statement (seed mod ceil(filesize/64)) gives %s", fs, got, want),
+					Replay:   map[string]any{"kind": "leafindex", "filesize": fs, "window": hex.EncodeToString(wid[:]), "fcid": hex.EncodeToString(fcid[:])},
+					Expected: want, Observed: got})
+			}
+			model(fmt.Sprintf("sp-leafindex %d %s %s", fs, hex.EncodeToString(wid[:]), hex.EncodeToString(fcid[:])), got)
+		}
 	}
 }
